@@ -33,12 +33,14 @@ def isCgiPath (p : Bytes) : Bool :=
 def connHandler (r : PReq) (t : Target) : Handler :=
   if r.method = ofString "CONNECT" then { status := 405, close := true }
   else if isCgiPath t.path then { status := 200, readsBody := true }
+  -- a CGI that answers 202 without reading its stdin: lighttpd (not streaming) has read the whole body
+  else if t.path = ofString "/noread.pl" then { status := 202, readsBody := true }
   else { status := 0 }
 
-def evStr (idx : Nat) (alt : Option Nat) (inCk : Bool) : Event → String
+def evStr (idx : Nat) (alt : Option Nat) (inCk : Bool) (tov : Bool) : Event → String
   | .request st m _ path body ck =>
     "req:" ++ toString st ++ ":" ++ toHex m ++ ":" ++ toHex path ++ ":" ++ (if ck then "ck" else "cl") ++ ":" ++
-      toHex body ++ "@" ++ toString idx
+      toHex body ++ (if tov then ":tov" else "") ++ "@" ++ toString idx
   | .reject st =>
     "rej:" ++ toString st ++ (match alt with | some a => ":alt" ++ toString a | none => "") ++
       (if inCk then ":ck" else "") ++ "@" ++ toString idx
@@ -84,7 +86,13 @@ def connGo (cfg : ConnCfg) : ConnSt → Nat → Bytes → List String → ConnSt
         | none => none
       | _, _ => none
     let inCk : Bool := match s.phase with | .bodyCk .. => true | _ => false
-    connGo cfg r.1 (i + 1) rest ((r.2.map (evStr i alt inCk)).reverse ++ acc)
+    -- the chunked body ended because its trailer section outgrew max-request-field-size (keep-alive off)
+    let tov : Bool := match s.phase with
+      | .bodyCk _ _ _ ck =>
+        let ck' := ckStep (ckCfgOf cfg) ck b
+        ck'.mode == .done && !ck'.ka
+      | _ => false
+    connGo cfg r.1 (i + 1) rest ((r.2.map (evStr i alt inCk tov)).reverse ++ acc)
 
 def h1Line : List String → String
   | ["conn", fl, mf, mk, ki, ms, h] =>
@@ -99,6 +107,7 @@ def h1Line : List String → String
     match fl.toNat?, mf.toNat?, ofHex h with
     | some f, some m, some b => reqOutStr (parseHead ⟨f⟩ m 80 b)
     | _, _, _ => "bad-op"
+  | "chunkedb" :: ms :: mf :: segs => h1Line ("chunked" :: ms :: mf :: segs)   -- same stream, one read buffer per segment
   | "chunked" :: ms :: mf :: segs =>
     match ms.toNat?, mf.toNat?, segs.mapM ofHex with
     | some msz, some mfl, some bs =>
